@@ -39,7 +39,7 @@ def validate_row_run(model, ch):
     kinds = []
     for column in range(width):
         # a surplus cell may be the empty text (a trailing delimiter, a padded sheet): the row is too long all the same
-        kind = ch.choose(("cell kind", column), ["str", "not-a-str", "number"] if column < 2 else ["str", "empty"])
+        kind = ch.choose(("cell kind", column), ["str", "not-a-str", "number", "empty"] if column < 2 else ["str", "empty"])
         kinds.append(kind)
         row.append(Atom("cell%d" % column, "cell%d" % column) if kind == "str" else "" if kind == "empty" else 7 if kind == "number" else Opaque("nonstr"))
     info = model.func(VALIDATOR + ".validate_row")
@@ -84,20 +84,23 @@ def validate_row_oracle(run, aspects=("location",)):
             expect_raise("DataError")
             cursor.done()
             return "conforms"
+        # round 11: a cell may be the empty text - it goes to its field and, with the others, to every check like any
+        # other text (a row of empty cells is a row: two of them violate IsUnique, and DistinctCount counts the value)
+        shown = ["cell%d" % column if run["kinds"][column] == "str" else repr("") for column in range(2)]
         for column in range(2):
             name = "f%d" % column
-            if run["kinds"][column] != "str":
+            if run["kinds"][column] not in ("str", "empty"):
                 expect_raise("FieldValueError", column, name)
                 cursor.done()
                 return "conforms"
-            result = cursor.expect("validated", name, "cell%d" % column, "line=%d" % line, "cell=%d" % column)
+            result = cursor.expect("validated", name, shown[column], "line=%d" % line, "cell=%d" % column)
             if result == FIELD_BAD:
                 expect_raise("FieldValueError", column, name)
                 cursor.done()
                 return "conforms"
         for index in range(2):
             name = "c%d" % index
-            result = cursor.expect("check_row", name, [("f0", "cell0"), ("f1", "cell1")], "line=%d" % line, "cell=0")
+            result = cursor.expect("check_row", name, [("f0", shown[0]), ("f1", shown[1])], "line=%d" % line, "cell=0")
             if result == CHECK_BAD:
                 expect_raise("CheckError")
                 cursor.done()
